@@ -936,7 +936,7 @@ Section Cover.
     apply bind_ok in H as (a & s1 & l1 & l2 & _ & H & _).
     apply bind_ok in H as (b & s2 & l3 & l4 & Hu & H & _). unfold ret in H. inversion H; subst ks.
     apply in_or_app. right.
-    apply (template_refs_cover o o' s true s1 b s2 l3 Hu); try assumption.
+    refine (template_refs_cover o o' s true s1 b s2 l3 Hu _ _ Hpp g k Hk Hnp).
     - intros k' Hk'. apply Hag. apply in_or_app. now right.
     - unfold flat_at in *. now apply forallb_app_r in Hfl.
   Qed.
@@ -955,8 +955,250 @@ Section Cover.
     apply bind_ok in H as (a & s1 & l1 & l2 & _ & H & _).
     apply bind_ok in H as (b & s2 & l3 & l4 & Hu & H & _). unfold ret in H. inversion H; subst ks.
     apply in_or_app. right.
-    apply (template_refs_cover o o' s false s1 b s2 l3 Hu); try assumption.
+    refine (template_refs_cover o o' s false s1 b s2 l3 Hu _ _ Hpp g k Hk Hnp).
     - intros k' Hk'. apply Hag. apply in_or_app. now right.
     - unfold flat_at in *. now apply forallb_app_r in Hfl.
+  Qed.
+
+  (** ** Template.evaluate *)
+  Lemma eval_template_unfold s ps o :
+    eval (ETemplate s ps) o =
+      wrap_eval S
+        (bind S (template_options S (fun x => eval x o) ps o) (fun o' =>
+         bind S (emit_reads S (filter (fun k => negb (is_par_key k)) (resolve_reads rfuel o' (JStr s))) o) (fun _ =>
+         bind S (of_rres S (resolve rfuel o' (JStr s))) (fun j =>
+         match to_str j with Some r => ret S (VJ (JStr r)) | None => fail S CUnmodelled false end)))).
+  Proof. reflexivity. Qed.
+
+  Lemma template_options_nil ev o st : template_options S ev [] o st = (Ok o, st, []).
+  Proof. reflexivity. Qed.
+
+  (** the substitution succeeded with a value whose string form is [t]: that text is the result;
+      the substitution itself only reads options *)
+  Lemma eval_template_ok s ps o st o' st1 l1 r t :
+    template_options S (fun x => eval x o) ps o st = (Ok o', st1, l1) ->
+    resolve rfuel o' (JStr s) = ROk r -> to_str r = Some t ->
+    exists l2, eval (ETemplate s ps) o st = (Ok (VJ (JStr t)), st1, l1 ++ l2) /\ forallb is_read l2 = true.
+  Proof.
+    intros Ho Hr Ht. rewrite eval_template_unfold. unfold wrap_eval, bind. rewrite Ho.
+    destruct (emit_reads_spec S (filter (fun k => negb (is_par_key k)) (resolve_reads rfuel o' (JStr s))) o st1)
+      as [l [E Hl]].
+    rewrite E, Hr. cbn [of_rres]. unfold ret at 1. rewrite Ht. unfold ret.
+    eexists. split; [reflexivity|]. rewrite !app_nil_r. exact Hl.
+  Qed.
+
+  (** a reference that cannot be found: an EvaluationError that is a KeyNotFoundError naming it *)
+  Lemma eval_template_missing s ps o st o' st1 l1 k :
+    template_options S (fun x => eval x o) ps o st = (Ok o', st1, l1) ->
+    resolve rfuel o' (JStr s) = RMissing k ->
+    exists l2, eval (ETemplate s ps) o st = (Err (CKey k) true, st1, l1 ++ l2) /\ forallb is_read l2 = true.
+  Proof.
+    intros Ho Hr. rewrite eval_template_unfold. unfold wrap_eval, bind. rewrite Ho.
+    destruct (emit_reads_spec S (filter (fun k => negb (is_par_key k)) (resolve_reads rfuel o' (JStr s))) o st1)
+      as [l [E Hl]].
+    rewrite E, Hr. cbn [of_rres]. unfold fail.
+    eexists. split; [reflexivity|]. rewrite !app_nil_r. exact Hl.
+  Qed.
+
+  (** the text of a Template (with its parameters already placed in [o']) is the unescaped full
+      expansion, for every budget above the reference depth *)
+  Theorem eval_template_spec s ps o st o' st1 l1 d e :
+    template_options S (fun x => eval x o) ps o st = (Ok o', st1, l1) ->
+    flatten d o' s = Some e -> rfuel > d ->
+    exists l2, eval (ETemplate s ps) o st = (Ok (VJ (JStr (unescape e))), st1, l1 ++ l2)
+               /\ forallb is_read l2 = true.
+  Proof.
+    intros Ho Hf Hd. destruct (flatten_resolve d o' s e Hf rfuel Hd) as [r [Hr Ht]].
+    exact (eval_template_ok s ps o st o' st1 l1 r (unescape e) Ho Hr Ht).
+  Qed.
+
+  Theorem eval_template_missing_reference s ps o st o' st1 l1 n k :
+    template_options S (fun x => eval x o) ps o st = (Ok o', st1, l1) ->
+    misses o' n s k -> rfuel > n ->
+    exists l2, eval (ETemplate s ps) o st = (Err (CKey k) true, st1, l1 ++ l2) /\ forallb is_read l2 = true.
+  Proof.
+    intros Ho Hm Hn. exact (eval_template_missing s ps o st o' st1 l1 k Ho (misses_resolve o' n s k Hm rfuel Hn)).
+  Qed.
+
+  (** ** parameters: [template_options] *)
+  Definition pname (p : N) : seg := SName (par_base + p).
+  Definition par_dict (d : dict) : Prop :=
+    nodup_keys d = true /\ forall s v, In (s, v) d -> exists p, s = pname p.
+
+  Lemma existsb_dget k m :
+    existsb (fun kv : seg * json => seg_eqb k (fst kv)) m = match dget k m with Some _ => true | None => false end.
+  Proof.
+    induction m as [|[k' v'] m IH]; [reflexivity|]. cbn [existsb dget fst].
+    destruct (seg_eqb k k'); [reflexivity|exact IH].
+  Qed.
+
+  Lemma In_dset s v' k v m : In (s, v') (dset k v m) -> s = k \/ In (s, v') m.
+  Proof.
+    induction m as [|[k0 v0] m IH]; cbn [dset].
+    - intros [E|[]]. inversion E. now left.
+    - destruct (seg_eqb k k0).
+      + intros [E|H]; [inversion E; now left|right; now right].
+      + intros [E|H]; [right; now left|]. destruct (IH H) as [->|H']; [now left|right; now right].
+  Qed.
+
+  Lemma nodup_dset k v m : nodup_keys m = true -> nodup_keys (dset k v m) = true.
+  Proof.
+    induction m as [|[k0 v0] m IH]; intros H; [reflexivity|]. cbn [dset].
+    destruct (seg_eqb k k0) eqn:E.
+    - apply seg_eqb_eq in E. subst k0. exact H.
+    - cbn [nodup_keys] in *. apply andb_prop in H as [H1 H2]. rewrite (IH H2), andb_true_r.
+      rewrite existsb_dget in *. rewrite dget_dset_other; [exact H1|]. now rewrite seg_eqb_sym.
+  Qed.
+
+  Lemma option_set_par : forall l acc pd,
+    (forall kv, In kv l -> exists p, fst kv = par_key p) -> par_dict acc ->
+    option_set l acc = Some pd -> par_dict pd.
+  Proof.
+    induction l as [|[k v] l IH]; intros acc pd Hl Hacc H.
+    - cbn in H. inversion H; subst. exact Hacc.
+    - destruct (Hl (k, v) (or_introl eq_refl)) as [p Hp]. cbn [fst] in Hp. subst k.
+      cbn [option_set par_key set_dotted] in H.
+      apply (IH (dset (SName (par_base + p)) v acc) pd); [intros kv Hkv; apply Hl; now right| |exact H].
+      destruct Hacc as [Hn Hi]. split; [now apply nodup_dset|].
+      intros s v' Hin. apply In_dset in Hin as [->|Hin]; [now exists p|exact (Hi s v' Hin)].
+  Qed.
+
+  Lemma mix_par_agree o pd k :
+    par_dict pd -> opt_key k = true -> lookup k (JObj (mix o pd)) = lookup k (JObj o).
+  Proof.
+    intros [Hn Hi] Hk. destruct k as [|s k']; [discriminate|].
+    apply lookup_mix_untouched; [exact Hn|].
+    destruct (dget s pd) as [v|] eqn:E; [|reflexivity]. exfalso.
+    apply dget_In in E. destruct (Hi s v E) as [p ->]. unfold opt_key, pname in Hk.
+    apply N.ltb_lt in Hk. lia.
+  Qed.
+
+  Definition par_entries (pvs : list (N * value)) : list (key * json) :=
+    flat_map (fun pv => match json_of_value (snd pv) with
+                        | Some j => [(par_key (fst pv), j)] | None => [] end) pvs.
+
+  Lemma template_options_inv ev ps o st o' st' l :
+    template_options S ev ps o st = (Ok o', st', l) ->
+    exists pvs pd,
+      mapM S (fun pe => bind S (ev (snd pe)) (fun v => ret S (fst pe, v))) ps st = (Ok pvs, st', l) /\
+      option_set (par_entries pvs) [] = Some pd /\ par_dict pd /\ o' = mix o pd.
+  Proof.
+    unfold template_options. intros H.
+    apply bind_ok in H as (pvs & s1 & l1 & l2 & Hm & H & ->).
+    fold (par_entries pvs) in H.
+    destruct (option_set (par_entries pvs) []) as [pd|] eqn:E; [|discriminate].
+    destruct (negb (Nat.eqb (length pd) (length ps))); [discriminate|].
+    unfold ret in H. inversion H; subst. rewrite app_nil_r.
+    assert (Hpd : par_dict pd).
+    { apply (option_set_par (par_entries pvs) [] pd); [|split; [reflexivity|intros s v []]|exact E].
+      intros kv Hkv. unfold par_entries in Hkv. apply in_flat_map in Hkv as [[p v] [_ Hkv]].
+      cbn [snd fst] in Hkv. destruct (json_of_value v); [|destruct Hkv].
+      destruct Hkv as [<-|[]]. now exists p. }
+    exists pvs, pd. split; [exact Hm|]. split; [exact E|]. split; [exact Hpd|reflexivity].
+  Qed.
+
+  (** every option key (one that cannot collide with a parameter slot) has the SAME value in
+      the dictionary the template is resolved against as in the caller's options *)
+  Theorem template_options_agree ev ps o st o' st' l :
+    template_options S ev ps o st = (Ok o', st', l) ->
+    forall k, opt_key k = true -> lookup k (JObj o') = lookup k (JObj o).
+  Proof.
+    intros H k Hk. destruct (template_options_inv ev ps o st o' st' l H) as (pvs & pd & _ & _ & Hpd & ->).
+    now apply mix_par_agree.
+  Qed.
+
+  Lemma mapM_inv {A B} (f : A -> M B) : forall l st bs st' lg,
+    mapM S f l st = (Ok bs, st', lg) ->
+    Forall2 (fun a b => exists s1 s2 l', f a s1 = (Ok b, s2, l')) l bs.
+  Proof.
+    induction l as [|a l IH]; intros st bs st' lg H.
+    - cbn in H. unfold ret in H. inversion H. constructor.
+    - rewrite mapM_cons in H. apply bind_ok in H as (b & s1 & l1 & l2 & Hf & H & _).
+      apply bind_ok in H as (bs' & s2 & l3 & l4 & Hr & H & _). unfold ret in H. inversion H; subst.
+      constructor; [exists st, s1, l1; exact Hf|exact (IH _ _ _ _ Hr)].
+  Qed.
+
+  Lemma pname_neq p p0 : p <> p0 -> seg_eqb (pname p) (pname p0) = false.
+  Proof. intros H. unfold pname, seg_eqb. apply N.eqb_neq. lia. Qed.
+
+  Lemma option_set_other : forall pvs acc pd p,
+    option_set (par_entries pvs) acc = Some pd -> ~ In p (map fst pvs) ->
+    dget (pname p) pd = dget (pname p) acc.
+  Proof.
+    induction pvs as [|[p0 v0] pvs IH]; intros acc pd p H Hn.
+    - cbn in H. inversion H. reflexivity.
+    - unfold par_entries in H. cbn [flat_map snd fst] in H. fold (par_entries pvs) in H.
+      destruct (json_of_value v0) as [j0|]; cbn [app] in H.
+      + cbn [option_set par_key set_dotted] in H. rewrite (IH _ _ p H).
+        * apply dget_dset_other. apply pname_neq. intros ->. apply Hn. now left.
+        * intros Hin. apply Hn. now right.
+      + apply (IH _ _ p H). intros Hin. apply Hn. now right.
+  Qed.
+
+  Lemma option_set_value : forall pvs acc pd p j,
+    option_set (par_entries pvs) acc = Some pd -> NoDup (map fst pvs) -> In (p, VJ j) pvs ->
+    dget (pname p) pd = Some j.
+  Proof.
+    induction pvs as [|[p0 v0] pvs IH]; intros acc pd p j H Hnd Hin; [destruct Hin|].
+    cbn [map fst] in Hnd. inversion Hnd as [|? ? Hnotin Hnd']; subst.
+    unfold par_entries in H. cbn [flat_map snd fst] in H. fold (par_entries pvs) in H.
+    destruct Hin as [E|Hin].
+    - inversion E; subst. cbn [json_of_value app] in H. cbn [option_set par_key set_dotted] in H.
+      rewrite (option_set_other pvs _ pd p H Hnotin). apply dget_dset_same.
+    - destruct (json_of_value v0); cbn [app] in H; [cbn [option_set par_key set_dotted] in H|];
+        exact (IH _ pd p j H Hnd' Hin).
+  Qed.
+
+  (** each parameter slot holds the value of ITS expression, evaluated under the caller's options
+      (the SAME dictionary [o] the {KEY} references are looked up in) *)
+  Theorem template_options_param ps o st o' st' l :
+    template_options S (fun x => eval x o) ps o st = (Ok o', st', l) -> NoDup (map fst ps) ->
+    forall p pe, In (p, pe) ps ->
+    exists v s1 s2 l', eval pe o s1 = (Ok v, s2, l') /\
+      forall j, v = VJ j -> (forall m, j <> JObj m) -> lookup (par_key p) (JObj o') = Found j.
+  Proof.
+    intros H Hnd p pe Hin.
+    destruct (template_options_inv _ ps o st o' st' l H) as (pvs & pd & Hm & E & Hpd & ->).
+    apply mapM_inv in Hm.
+    assert (Hfst : map fst pvs = map fst ps).
+    { clear -Hm. induction Hm as [|pe' pv ps' pvs' (s1 & s2 & l' & Hb) _ IH]; [reflexivity|].
+      apply bind_ok in Hb as (v & s3 & l1 & l2 & _ & Hb & _). unfold ret in Hb. inversion Hb; subst.
+      cbn [map fst]. now rewrite IH. }
+    assert (Hex : exists v, In (p, v) pvs /\ exists s1 s2 l', eval pe o s1 = (Ok v, s2, l')).
+    { clear -Hm Hin. induction Hm as [|pe' pv ps' pvs' (s1 & s2 & l' & Hb) _ IH]; [destruct Hin|].
+      destruct Hin as [->|Hin].
+      - apply bind_ok in Hb as (v & s3 & l1 & l2 & Hv & Hb & _). unfold ret in Hb. inversion Hb; subst.
+        cbn [snd fst] in *. exists v. split; [now left|]. now exists s1, s3, l1.
+      - destruct (IH Hin) as (v & Hv & R). exists v. split; [now right|exact R]. }
+    destruct Hex as (v & Hv & s1 & s2 & l' & He). exists v, s1, s2, l'. split; [exact He|].
+    intros j -> Hj. rewrite <- Hfst in Hnd.
+    pose proof (option_set_value pvs [] pd p j E Hnd Hv) as Hd.
+    unfold par_key. fold (pname p). rewrite (lookup_mix_step (pname p) [] o pd (proj1 Hpd)).
+    unfold pname in *. rewrite Hd. destruct j; try reflexivity. exfalso. now apply (Hj m).
+  Qed.
+
+  (** keys() covers what evaluate reads: the statement about the very list evaluate emits *)
+  Theorem template_keys_cover_emitted s ps o st0 o' st0' l0 st ks st' lg :
+    template_options S (fun x => eval x o) ps o st0 = (Ok o', st0', l0) ->
+    keys (ETemplate s ps) o st = (Ok ks, st', lg) ->
+    flat_at o ks = true -> forallb opt_key ks = true -> params_plain o' s = true ->
+    incl (filter (fun k => negb (is_par_key k)) (resolve_reads rfuel o' (JStr s))) ks.
+  Proof.
+    intros Ho Hk Hfl Hop Hpp k Hin. apply filter_In in Hin as [Hin Hnp]. apply negb_true_iff in Hnp.
+    refine (template_keys_cover_reads s ps o o' st ks st' lg Hk _ Hfl Hpp rfuel k Hin Hnp).
+    intros k' Hk'. apply (template_options_agree _ ps o st0 o' st0' l0 Ho).
+    exact (proj1 (forallb_forall _ _) Hop k' Hk').
+  Qed.
+
+  Theorem template_explain_cover_emitted s ps o st0 o' st0' l0 st ks st' lg :
+    template_options S (fun x => eval x o) ps o st0 = (Ok o', st0', l0) ->
+    explain (ETemplate s ps) o st = (Ok ks, st', lg) ->
+    flat_at o ks = true -> forallb opt_key ks = true -> params_plain o' s = true ->
+    incl (filter (fun k => negb (is_par_key k)) (resolve_reads rfuel o' (JStr s))) ks.
+  Proof.
+    intros Ho Hk Hfl Hop Hpp k Hin. apply filter_In in Hin as [Hin Hnp]. apply negb_true_iff in Hnp.
+    refine (template_explain_cover_reads s ps o o' st ks st' lg Hk _ Hfl Hpp rfuel k Hin Hnp).
+    intros k' Hk'. apply (template_options_agree _ ps o st0 o' st0' l0 Ho).
+    exact (proj1 (forallb_forall _ _) Hop k' Hk').
   Qed.
 End Cover.
